@@ -1,4 +1,6 @@
 pub mod swiftness_stark {
 //@include stark/config.rs
 //@include stark/queries.rs
+//@include stark/types.rs
+//@include stark/oods.rs
 } // mod swiftness_stark
